@@ -1,1 +1,340 @@
+// Package ref is the reference model used by the checks: big-integer ledger arithmetic over declared parent
+// hashes, and an independent re-implementation of the wire-level digests, address codec and signature checks
+// (written from the README / message layout, not by calling the repository's verifier).
 package ref
+
+import (
+	"bytes"
+	"crypto/ed25519"
+	"crypto/sha256"
+	"encoding/binary"
+	"errors"
+	"math/big"
+	"sort"
+	"time"
+
+	"github.com/mr-tron/base58"
+
+	"github.com/bartossh/Computantis/src/accountant"
+	"github.com/bartossh/Computantis/src/spice"
+	"github.com/bartossh/Computantis/src/transaction"
+)
+
+const E18 = uint64(1_000_000_000_000_000_000)
+
+var bigE18 = new(big.Int).SetUint64(E18)
+
+// V is the unbounded integer value of a Melange.
+func V(m spice.Melange) *big.Int {
+	v := new(big.Int).SetUint64(m.Currency)
+	v.Mul(v, bigE18)
+	v.Add(v, new(big.Int).SetUint64(m.SupplementaryCurrency))
+	return v
+}
+
+// FromBig converts a non-negative value back to a canonical Melange (ok=false if not representable).
+func FromBig(v *big.Int) (spice.Melange, bool) {
+	if v.Sign() < 0 {
+		return spice.Melange{}, false
+	}
+	q, r := new(big.Int).QuoRem(v, bigE18, new(big.Int))
+	if !q.IsUint64() {
+		return spice.Melange{}, false
+	}
+	return spice.Melange{Currency: q.Uint64(), SupplementaryCurrency: r.Uint64()}, true
+}
+
+type Hash = [32]byte
+
+var Zero Hash
+
+// ---------- independent crypto ----------
+
+func checksum(payload []byte) []byte {
+	a := sha256.Sum256(payload)
+	b := sha256.Sum256(a[:])
+	return b[:4]
+}
+
+// Address encodes a public key: base58(version 0x00 | key | first 4 bytes of double sha256).
+func Address(pub ed25519.PublicKey) string {
+	full := append([]byte{0}, pub...)
+	full = append(full, checksum(full)...)
+	return base58.Encode(full)
+}
+
+// AddressKey decodes an address with checksum verification.
+func AddressKey(addr string) (ed25519.PublicKey, error) {
+	raw, err := base58.Decode(addr)
+	if err != nil {
+		return nil, err
+	}
+	if len(raw) < 6 {
+		return nil, errors.New("short address")
+	}
+	body, cs := raw[:len(raw)-4], raw[len(raw)-4:]
+	if !bytes.Equal(checksum(body), cs) {
+		return nil, errors.New("checksum")
+	}
+	return ed25519.PublicKey(body[1:]), nil
+}
+
+// VerifySig checks that digest == sha256(message) and that signature is addr's ed25519 signature over the digest.
+func VerifySig(message, signature []byte, digest Hash, addr string) bool {
+	d := sha256.Sum256(message)
+	if d != digest {
+		return false
+	}
+	k, err := AddressKey(addr)
+	if err != nil || len(k) != ed25519.PublicKeySize {
+		return false
+	}
+	return ed25519.Verify(k, d[:], signature)
+}
+
+func le64(v uint64) []byte {
+	b := make([]byte, 8)
+	binary.LittleEndian.PutUint64(b, v)
+	return b
+}
+
+// TxMessage is subject|data|issuer|receiver|LE64(nanos)|LE64(cur)|LE64(supp).
+func TxMessage(t *transaction.Transaction) []byte {
+	var b bytes.Buffer
+	b.WriteString(t.Subject)
+	b.Write(t.Data)
+	b.WriteString(t.IssuerAddress)
+	b.WriteString(t.ReceiverAddress)
+	b.Write(le64(uint64(t.CreatedAt.UnixNano())))
+	b.Write(le64(t.Spice.Currency))
+	b.Write(le64(t.Spice.SupplementaryCurrency))
+	return b.Bytes()
+}
+
+// VertexMessage is txHash|left|right|LE64(nanos)|LE64(weight).
+func VertexMessage(v *accountant.Vertex) []byte {
+	var b bytes.Buffer
+	b.Write(v.Transaction.Hash[:])
+	b.Write(v.LeftParentHash[:])
+	b.Write(v.RightParentHash[:])
+	b.Write(le64(uint64(v.CreatedAt.UnixNano())))
+	b.Write(le64(v.Weight))
+	return b.Bytes()
+}
+
+// TxValid re-verifies the transaction: hash, issuer signature and (if present) receiver signature.
+func TxValid(t *transaction.Transaction) bool {
+	m := TxMessage(t)
+	if !VerifySig(m, t.IssuerSignature, t.Hash, t.IssuerAddress) {
+		return false
+	}
+	if len(t.ReceiverSignature) != 0 {
+		return VerifySig(m, t.ReceiverSignature, t.Hash, t.ReceiverAddress)
+	}
+	return true
+}
+
+// VertexValid re-verifies transaction and sealing signature.
+func VertexValid(v *accountant.Vertex) bool {
+	if !TxValid(&v.Transaction) {
+		return false
+	}
+	return VerifySig(VertexMessage(v), v.Signature, v.Hash, v.SignerPublicAddress)
+}
+
+// Key is a deterministic wallet.
+type Key struct {
+	Priv ed25519.PrivateKey
+	Pub  ed25519.PublicKey
+	Addr string
+	Name string
+}
+
+func NewKey(name string, seed []byte) *Key {
+	s := sha256.Sum256(append([]byte("verif-key:"), seed...))
+	priv := ed25519.NewKeyFromSeed(s[:])
+	pub := priv.Public().(ed25519.PublicKey)
+	return &Key{Priv: priv, Pub: pub, Addr: Address(pub), Name: name}
+}
+
+// Sign implements the repository's Signer interface (sha256 digest + ed25519 over the digest).
+func (k *Key) Sign(message []byte) (digest [32]byte, signature []byte) {
+	digest = sha256.Sum256(message)
+	return digest, ed25519.Sign(k.Priv, digest[:])
+}
+
+func (k *Key) Address() string { return k.Addr }
+
+// MakeTx builds an issuer-signed transaction with an explicit timestamp.
+func MakeTx(subject string, amount spice.Melange, data []byte, receiver string, issuer *Key, createdAt time.Time) transaction.Transaction {
+	t := transaction.Transaction{
+		CreatedAt:         createdAt,
+		IssuerAddress:     issuer.Addr,
+		ReceiverAddress:   receiver,
+		Subject:           subject,
+		Data:              data,
+		ReceiverSignature: []byte{},
+		Spice:             amount,
+	}
+	t.Hash, t.IssuerSignature = issuer.Sign(TxMessage(&t))
+	return t
+}
+
+// CounterSign adds the receiver signature.
+func CounterSign(t *transaction.Transaction, receiver *Key) {
+	_, t.ReceiverSignature = receiver.Sign(TxMessage(t))
+}
+
+// Seal builds a vertex sealed by the given key with explicit parents, weight and timestamp.
+func Seal(t transaction.Transaction, left, right Hash, weight uint64, createdAt time.Time, sealer *Key) accountant.Vertex {
+	v := accountant.Vertex{
+		SignerPublicAddress: sealer.Addr,
+		CreatedAt:           createdAt,
+		Transaction:         t,
+		LeftParentHash:      left,
+		RightParentHash:     right,
+		Weight:              weight,
+	}
+	v.Hash, v.Signature = sealer.Sign(VertexMessage(&v))
+	return v
+}
+
+// ---------- reference ledger ----------
+
+// Archive holds every vertex the harness has ever seen, keyed by hash.
+type Archive struct {
+	V     map[Hash]*accountant.Vertex
+	Order []Hash
+	anc   map[Hash]map[Hash]struct{}
+}
+
+func NewArchive() *Archive {
+	return &Archive{V: map[Hash]*accountant.Vertex{}, anc: map[Hash]map[Hash]struct{}{}}
+}
+
+func (a *Archive) Add(v *accountant.Vertex) {
+	if _, ok := a.V[v.Hash]; ok {
+		return
+	}
+	c := *v
+	a.V[v.Hash] = &c
+	a.Order = append(a.Order, v.Hash)
+}
+
+// Parents returns the distinct, non-zero declared parents.
+func Parents(v *accountant.Vertex) []Hash {
+	var out []Hash
+	if v.LeftParentHash != Zero {
+		out = append(out, v.LeftParentHash)
+	}
+	if v.RightParentHash != Zero && v.RightParentHash != v.LeftParentHash {
+		out = append(out, v.RightParentHash)
+	}
+	return out
+}
+
+// Anc returns the transitive declared parents of h that are known to the archive (h excluded).
+func (a *Archive) Anc(h Hash) map[Hash]struct{} {
+	if s, ok := a.anc[h]; ok {
+		return s
+	}
+	out := map[Hash]struct{}{}
+	v, ok := a.V[h]
+	if !ok {
+		return out
+	}
+	stack := Parents(v)
+	for len(stack) > 0 {
+		p := stack[len(stack)-1]
+		stack = stack[:len(stack)-1]
+		if _, seen := out[p]; seen {
+			continue
+		}
+		pv, ok := a.V[p]
+		if !ok {
+			continue
+		}
+		out[p] = struct{}{}
+		stack = append(stack, Parents(pv)...)
+	}
+	a.anc[h] = out
+	return out
+}
+
+// AncWithin returns transitive declared parents of h following only vertices inside `within`.
+func (a *Archive) AncWithin(h Hash, within map[Hash]struct{}) map[Hash]struct{} {
+	out := map[Hash]struct{}{}
+	v, ok := a.V[h]
+	if !ok {
+		return out
+	}
+	stack := Parents(v)
+	for len(stack) > 0 {
+		p := stack[len(stack)-1]
+		stack = stack[:len(stack)-1]
+		if _, seen := out[p]; seen {
+			continue
+		}
+		if _, in := within[p]; !in {
+			continue
+		}
+		pv, ok := a.V[p]
+		if !ok {
+			continue
+		}
+		out[p] = struct{}{}
+		stack = append(stack, Parents(pv)...)
+	}
+	return out
+}
+
+// Flow sums spice received and sent by addr over the vertex set.
+func (a *Archive) Flow(set map[Hash]struct{}, addr string) (in, out *big.Int) {
+	in, out = new(big.Int), new(big.Int)
+	for h := range set {
+		v := a.V[h]
+		if v == nil {
+			continue
+		}
+		FlowOne(v, addr, in, out)
+	}
+	return
+}
+
+// FlowOne adds the flow of one vertex.
+func FlowOne(v *accountant.Vertex, addr string, in, out *big.Int) {
+	if v.Transaction.Spice.Currency == 0 && v.Transaction.Spice.SupplementaryCurrency == 0 {
+		return
+	}
+	if v.Transaction.IssuerAddress == addr {
+		out.Add(out, V(v.Transaction.Spice))
+	}
+	if v.Transaction.ReceiverAddress == addr {
+		in.Add(in, V(v.Transaction.Spice))
+	}
+}
+
+func IsSpice(v *accountant.Vertex) bool {
+	return v.Transaction.Spice.Currency != 0 || v.Transaction.Spice.SupplementaryCurrency != 0
+}
+
+// Union returns a new set with all members.
+func Union(sets ...map[Hash]struct{}) map[Hash]struct{} {
+	out := map[Hash]struct{}{}
+	for _, s := range sets {
+		for h := range s {
+			out[h] = struct{}{}
+		}
+	}
+	return out
+}
+
+// SortedHashes returns the members in a deterministic order.
+func SortedHashes(s map[Hash]struct{}) []Hash {
+	out := make([]Hash, 0, len(s))
+	for h := range s {
+		out = append(out, h)
+	}
+	sort.Slice(out, func(i, j int) bool { return bytes.Compare(out[i][:], out[j][:]) < 0 })
+	return out
+}
